@@ -35,6 +35,7 @@ class E:
         self.kwargs = kwargs or {}
         self.b0 = b0                    # callable(recv_obj) -> {"self.num_e": n}
         self.note = note
+        self.variants = []              # flag combinations (kwargs dicts); documented forms / stacks run under each
         self.model = True               # False: acceptance is not a sequence of shape checks; judged by the oracle only
 
 
@@ -298,7 +299,7 @@ add("Polyline.with_segments_bisected", YO + "with_segments_bisected", {"segment_
 add("Polyline.apex", YO + "apex", {"axis": "vec"}, [{"axis": S3}], recv="polyline", call=meth("apex"),
     deleg=[("vg.core.apex", {"points": ("const", "AArr [7; 3]"), "along": "axis"})])   # external (vg), hand-written contract
 add("Polyline.intersect_plane", YO + "intersect_plane", recv="polyline",
-    call=lambda r, a: r.intersect_plane(__import__("polliwog").Plane((r.v[0] + r.v[1]) / 2, np.array([1.0, 0.0, 0.0]))))
+    call=lambda r, a: r.intersect_plane(__import__("polliwog").Plane((r.v[0] + r.v[1]) / 2, np.array([1.0, 0.0, 0.0])), **a))
 add("Polyline.sliced_by_plane", YO + "sliced_by_plane", recv="polyline_open",
     call=lambda r, a: r.sliced_by_plane(__import__("polliwog").Plane((r.v[0] + r.v[1]) / 2, np.array([1.0, 0.0, 0.0]))))
 add("Polyline.sliced_at_indices", YO + "sliced_at_indices", recv="polyline", call=meth("sliced_at_indices"),
@@ -377,6 +378,56 @@ for e in R:
         e.deleg = []
 
 BY_PUBLIC = {e.public: e for e in R}
+
+
+# ---- flag combinations ("rarely used argument forms"): every documented form and every stacked-vs-row comparison is
+#      run under each of them, and on one object in sequence (state carried between calls) -------------------------
+def _prod(**opts):
+    import itertools
+    keys = list(opts)
+    return [dict(zip(keys, vals)) for vals in itertools.product(*[opts[k] for k in keys])]
+
+
+def variants(public, vs):
+    BY_PUBLIC[public].variants = vs
+
+
+variants("transform.apply_transform()", _prod(discard_z_coord=[False, True], treat_input_as_vector=[False, True]))
+variants("CompositeTransform.__call__", _prod(reverse=[False, True], from_range=[None, (1, 3)],
+                                              discard_z_coord=[False, True], treat_input_as_vector=[False, True]))
+variants("CompositeTransform.transform_matrix_for", _prod(reverse=[False, True], from_range=[None, (0, 2), (1, 3)]))
+variants("CoordinateManager.do_transform", [dict(from_tag="a", to_tag="c"), dict(from_tag="c", to_tag="a"),
+                                            dict(from_tag="b", to_tag="c"), dict(from_tag="c", to_tag="b")])
+variants("segment.closest_point_of_line_segment", _prod(ret_t_values=[False, True]))
+variants("Polyline.nearest", [dict(), dict(ret_segment_indices=True), dict(ret_segment_indices=True, ret_distances=True, ret_t_values=True)])
+for _n in ("Plane.points_in_front", "Plane.points_on_or_in_front"):
+    variants(_n, _prod(inverted=[False, True], ret_indices=[False, True]))
+for _n in ("tri.surface_normals", "plane.plane_normal_from_points", "tri.edges_of_faces"):
+    variants(_n, _prod(normalize=[True, False]))
+variants("pointcloud.extent", _prod(ret_indices=[False, True]))
+variants("tri.quads_to_tris", _prod(ret_mapping=[False, True]))
+variants("plane.slice_triangles_by_plane", _prod(ret_face_mapping=[False, True]))
+for _n in ("shapes.rectangular_prism", "shapes.cube", "shapes.triangular_prism"):
+    variants(_n, _prod(ret_unique_vertices_and_faces=[False, True]))
+for _n in ("transform.transform_matrix_for_non_uniform_scale", "transform.transform_matrix_for_rotation",
+           "transform.transform_matrix_for_translation", "transform.transform_matrix_for_uniform_scale"):
+    variants(_n, _prod(ret_inverse_matrix=[False, True]))
+for _n in ("transform.world_to_view", "transform.view_to_orthographic_projection", "transform.viewport_transform",
+           "transform.world_to_canvas_orthographic_projection"):
+    variants(_n, _prod(inverse=[False, True]))
+variants("transform.euler", [dict(), dict(units="rad"), dict(order="zyx"), dict(order="yxz", units="rad")])
+variants("tri.sample", _prod(ret_face_indices=[False, True]))
+variants("Polyline.with_insertions", _prod(ret_new_indices=[False, True]))
+variants("Polyline.subdivided_by_length", _prod(ret_indices=[False, True]))
+variants("Polyline.rolled", _prod(ret_edge_mapping=[False, True]))
+variants("Polyline.intersect_plane", _prod(ret_edge_indices=[False, True]))
+variants("Polyline.with_segments_bisected", _prod(ret_new_indices=[False, True]))
+variants("Polyline.sectioned", _prod(copy_vs=[False, True]))
+variants("Polyline.flipped_if", _prod(condition=[True, False]))
+variants("Plane.flipped_if", _prod(condition=[True, False]))
+variants("Box.contains", [dict(), dict(atol=0.5)])
+variants("Line.__init__", _prod(assume_normalized=[False, True]))
+variants("Polyline.__init__", _prod(is_closed=[False, True]))
 BY_PUBLIC["transform.cv2_rodrigues"].model = False   # dispatches on r.size == 3 / r.shape == (3, 3), else ValueError
 
 # contracts of the checks done OUTSIDE polliwog (vg), hand-written from site-packages/vg/core.py (trusted)
